@@ -41,6 +41,11 @@ func scenarios(thorough bool) []e3drive.Scenario {
 	om := o
 	om.Magic = true
 	add(e3scn.Commands1Q(3, om), b3)
+	// two GPUs, the far one slow to acknowledge the flush: the D2H after the kernel completes in the driver's
+	// flush-return path
+	o2 := o
+	o2.GPUs, o2.FarFlushLatency = 2, 4
+	add(e3scn.Kernel1Q(o2), 1)
 	if thorough {
 		add(e3scn.BackToBack(3, o), 2)
 		add(e3scn.Kernel1Q(o), 2)
